@@ -180,7 +180,41 @@ def run(chk):
             pairs.append((op, a, b))
             cases.append(("k%d" % (len(pairs) - 1), ["newcompiler", "add " + hx(("rule c { condition: (%s %s %s) == 0 }" % (c12.lit(a), c12.OPS[op], c12.lit(b))).encode()),
                                                        "force destroycompiler"]))
+    # large valid sources: more than 1 MiB of distinct strings, so the compiler's string pool (whose first entry is the namespace name every
+    # later rule lookup goes through) has to grow and move while rules are still being added; a valid file must compile without error and
+    # all its rules must be there, a duplicated identifier among them must be diagnosed exactly once
+    nfill = 140 if chk.tier == "quick" else 400
+    rb = chk.rng.fork()
+    filler = "".join('rule fill%d { meta: m = "%s" condition: true }\n' % (k, "".join(rb.choice("abcdefghijklmnopqrstuvwxyz0123456789") for _ in range(40)) * 200)
+                     for k in range(nfill))
+    big_ok = "rule first { condition: true }\n" + filler + "rule last { condition: first }\n"
+    big_dup = big_ok + "rule first { condition: false }\n"
+    for cid, src in (("big0", big_ok), ("big1", big_dup)):
+        cases.append((cid, ["newcompiler", "add " + hx(src.encode())] + (["getrules", "scanner 0", "scan " + hx(b"zz")] if cid == "big0" else []) +
+                      ["force destroycompiler", "force newcompiler2", "force add " + hx(good.encode()), "force getrules2",
+                       "force scanner 0", "force scan " + hx(b"xx needle yy"), "force sdestroy", "force destroyrules", "force destroycompiler"]))
     out, err = vlib.run_cases(hscan, cases, timeout=3000, args=["20"], jobs=16)
+    for cid, want in (("big0", 0), ("big1", 1)):
+        lines = out.get(cid, [])
+        adds = [l for l in lines if l.startswith("add errors=")]
+        replay = {"kind": "large-source", "how": "rule first {condition: true} + %d rules with distinct 8000-byte meta strings + rule last {condition: first}%s; "
+                  "h_scan (ASan build): newcompiler; add <source>; getrules; scanner 0; scan" % (nfill, " + a second rule first" if want else ""),
+                  "output": [l[:300] for l in lines[-8:]]}
+        if any(l.startswith("crash") for l in lines):
+            chk.violation("crash:large-source", "compiling a valid %d KB rule file crashes or corrupts memory: %s" % (len(big_ok) // 1024, [l for l in lines if l.startswith("crash")][0]), replay)
+        elif not adds or int(adds[0].split("=")[1]) != want:
+            chk.violation("large-source", "a %d KB rule file (%s) gives %s, expected %d error(s): %s" % (len(big_ok) // 1024, "valid" if not want else "one duplicated identifier",
+                          adds[:1], want, [l[:200] for l in lines if l.startswith("cb level=e")][:2]), replay)
+        elif cid == "big0":
+            sc = [l for l in lines if l.startswith("scan msgs=")]
+            nm = len(re.findall(r"M:default:(?:fill\d+|first|last)", sc[0])) if sc else -1
+            if nm != nfill + 2:
+                chk.violation("large-source", "a valid %d KB rule file: %d of %d rules match" % (len(big_ok) // 1024, nm, nfill + 2), replay)
+            else:
+                chk.add("large_sources_ok")
+        else:
+            chk.add("large_sources_ok")
+    cases = [c for c in cases if not c[0].startswith("big")]
     ub = sorted(set(re.findall(r"(\S+:\d+:\d+: runtime error: [^\n]{0,80})", err)))
     chk.note(ubsan_reports=ub[:20])
     kinds = {}
